@@ -395,6 +395,7 @@ def rule_c(ck, R):
 
 
 def run(ck):
+    ck.rule('C03.f', 'the per-area register records (first / last / count) that range iteration starts from are those of the current initialisation, also for areas that hold no register (C04.e re-evaluated)')
     ck.rule('C03.a', 'register_block_read: init test, zero-length success, hole verdict returned unchanged before the read')
     ck.rule('C03.b', 'read walker: cursor/buffer/count advance together; readable arm and zero-fill arm both fill exactly [buffer cursor, +step)')
     ck.rule('C03.c', 'range iteration: start register = first register not wholly below addr, searched to the end of the table; ascending while register address <= addr+off-1; callback result table')
@@ -409,3 +410,6 @@ def run(ck):
     rule_c(ck, R)
     rule_d(ck, R)
     wrap_free(R, 'C03.e', 'register_foreach_in')
+    from .common import reevaluate
+    reevaluate(ck, 'C03.f', 'c04', lambda r, k: r == 'C04.e',
+               'range iteration starts its search at the first register recorded for the area that contains the start address')
